@@ -329,3 +329,164 @@ Proof.
     + apply Nat.ltb_lt in El. apply IH; [split; [exact H0|intros; exact El]|exact H2|lia].
     + eexists; split; [reflexivity|]. eapply sw0_inv_at_end; eauto.
 Qed.
+
+(* ------------------------------------------------------------------ one call, finalize, reachability *)
+Definition mp_inv' (s : mp_state) : Prop := mp_inv s /\ mps_state s <> MpsInit.
+
+Lemma parse_r_ok s data :
+  mp_inv s -> mps_state s <> MpsInit -> exists s', mp_parse_r s data = MpOk s' /\ mp_inv s'.
+Proof.
+  intros Hi Hni. unfold mp_parse_r.
+  destruct (0 <? length data) eqn:El; [|eauto].
+  apply Nat.ltb_lt in El.
+  destruct Hi as (Hf & Hb & Hc & Hnb & HB).
+  apply switch_ok; [| exact Hni |].
+  - unfold mp_sw, mp_sw0. split; [|intros; lia].
+    split; [exact Hf|]. split; [exact Hb|]. split; [lia|]. split; [lia|]. split; [lia|]. split; [exact Hnb|].
+    intros HS. destruct (HB HS) as (H1 & H2). split; [lia|]. split; [exact H1|]. split; [|exact Hc].
+    intros Hp. rewrite (H2 Hp). reflexivity.
+  - unfold mp_M. destruct (mps_state s); cbn; lia.
+Qed.
+
+Lemma finalize_r_ok s : mp_inv s -> exists s', mp_finalize_r s = MpOk s' /\ mps_fault s' = false.
+Proof.
+  intros (Hf & Hb & Hc & Hnb & HB). unfold mp_finalize_r.
+  destruct (mpl_cur (mps_pl s)); [|eexists; split; [reflexivity|exact Hf]].
+  destruct (process_aside_ok s false Hc) as (s1 & E & Hbp1 & Hcr1 & Hbd1 & Hst1 & Hmp1 & Hcd1 & Hf1).
+  rewrite E. destruct (mpl_cur (mps_pl s1)); eexists; (split; [reflexivity|]); cbn; congruence.
+Qed.
+
+(* the state never becomes STATE_INIT again: every transition of the model assigns one of the six
+   other states; proved as part of a combined invariant on the observable result of a call *)
+Lemma data_loop_state n : forall data s pos sp drp,
+  mps_state s <> MpsInit ->
+  match mp_data_loop n data s pos sp drp with
+  | MpBreak s' _ _ _ | MpGoto s' _ _ _ | MpRet s' => mps_state s' <> MpsInit
+  | MpErr => True
+  end.
+Proof.
+  induction n as [|n IH]; intros data s pos sp drp Hs; cbn [mp_data_loop].
+  - destruct (mp_sub pos sp); [|exact I]. destruct (mp_sub _ _); [|exact I]. destruct (mp_slice _ _ _); [|exact I]. exact Hs.
+  - destruct (mp_rd data pos); [|exact I].
+    destruct (n0 =? CR)%N.
+    + destruct (pos + 1 =? length data); [apply IH; exact Hs|].
+      destruct (mp_rd data (pos + 1)); [|exact I].
+      destruct (n1 =? LF)%N; [destruct (mp_sub _ _); [cbn; discriminate|exact I]|apply IH; exact Hs].
+    + destruct (n0 =? LF)%N; [destruct (mp_sub _ _); [cbn; discriminate|exact I]|].
+      apply IH. destruct (mps_cr s); exact Hs.
+Qed.
+
+Lemma process_aside_state s m s1 : mp_process_aside s m = MpOk s1 -> mps_state s1 = mps_state s.
+Proof.
+  unfold mp_process_aside. cbv zeta.
+  destruct (m || _).
+  - set (s0 := if negb m && mps_cr s then _ else _).
+    assert (H0 : mps_state s0 = mps_state s) by (subst s0; destruct (negb m && mps_cr s); reflexivity).
+    destruct (mps_bpieces s0) as [|b rest]; [intros H; injection H as <-; exact H0|].
+    destruct (negb m).
+    + destruct (mp_slice b 0 _); [|discriminate]. destruct (mp_sub _ _); [|discriminate].
+      destruct (mp_slice b _ _); [|discriminate]. intros H; injection H as <-.
+      cbn [mp_set_bpieces mps_state].
+      match goal with |- context [fold_left ?f rest ?x] => pose proof (mt_fold_shd rest x) as Hm end.
+      rewrite !mt_shd in Hm. mt_fields Hm. congruence.
+    + destruct (if 0 <? mps_cand s0 then _ else _); [|discriminate].
+      destruct (if (n <? mps_cand s0) && (0 <? n) then _ else _); [|discriminate].
+      destruct (mp_slice b 0 n0); [|discriminate]. intros H; injection H as <-. exact H0.
+  - intros H; injection H as <-. cbn [mp_set_bpieces mps_state].
+    match goal with |- context [fold_left ?f ?r ?x] => pose proof (mt_fold_shd r x) as Hm end.
+    mt_fields Hm. destruct (mps_cr s); cbn in *; congruence.
+Qed.
+
+Lemma bnd_loop_state n : forall data s pos sp drp,
+  mps_state s <> MpsInit ->
+  match mp_bnd_loop n data s pos sp drp with
+  | MpBreak s' _ _ _ | MpGoto s' _ _ _ | MpRet s' => mps_state s' <> MpsInit
+  | MpErr => True
+  end.
+Proof.
+  induction n as [|n IH]; intros data s pos sp drp Hs; cbn [mp_bnd_loop].
+  - destruct (mp_sub _ _); [|exact I]. destruct (mp_slice _ _ _); [|exact I]. exact Hs.
+  - destruct (mp_rd data pos); [|exact I]. destruct (mp_rd _ _); [|exact I].
+    destruct (negb _).
+    + destruct (mp_process_aside s false); try exact I.
+      destruct (mpl_mode _).
+      * destruct (mp_sub _ _); [|exact I]. destruct (mp_slice _ _ _); [|exact I]. cbn; discriminate.
+      * cbn; discriminate.
+    + destruct (_ =? _).
+      * unfold mp_boundary_matched. destruct (mp_process_aside _ true); try exact I.
+        destruct (mp_sub _ _); [|exact I].
+        destruct (if 0 <? n2 then _ else _); [|exact I].
+        destruct (if 0 <? n3 then _ else _); [|exact I].
+        destruct (mp_slice _ _ _); [|exact I]. cbv zeta.
+        destruct (length data <=? pos + 1); cbn; discriminate.
+      * apply IH. exact Hs.
+Qed.
+
+Lemma switch_state fuel : forall data s pos sp drp s',
+  mps_state s <> MpsInit -> mp_switch fuel data s pos sp drp = MpOk s' -> mps_state s' <> MpsInit.
+Proof.
+  induction fuel as [|fuel IH]; intros data s pos sp drp s' Hs; cbn [mp_switch]; [discriminate|].
+  assert (HC : match (match mps_state s with
+             | MpsInit => MpRet s
+             | MpsData => mp_data_loop (length data - pos) data s pos sp drp
+             | MpsBoundary => mp_bnd_loop (length data - pos) data s pos sp drp
+             | _ => mp_single data s pos sp drp
+             end) with
+          | MpBreak s' _ _ _ | MpGoto s' _ _ _ | MpRet s' => mps_state s' <> MpsInit
+          | MpErr => True end).
+  { destruct (mps_state s) eqn:Est; try congruence.
+    - apply data_loop_state; congruence.
+    - apply bnd_loop_state; congruence.
+    - unfold mp_single. destruct (mp_rd data pos); [|exact I]. rewrite Est. destruct (n =? mp_DASH)%N; cbn; discriminate.
+    - unfold mp_single. destruct (mp_rd data pos); [|exact I]. rewrite Est. destruct (n =? mp_DASH)%N; cbn; discriminate.
+    - unfold mp_single. destruct (mp_rd data pos); [|exact I]. rewrite Est.
+      destruct (n =? CR)%N; [cbn; discriminate|]. destruct (n =? LF)%N; [cbn; discriminate|].
+      destruct (htp_is_lws n); cbn; congruence.
+    - unfold mp_single. destruct (mp_rd data pos); [|exact I]. rewrite Est. destruct (n =? LF)%N; cbn; discriminate. }
+  destruct (match mps_state s with MpsInit => _ | _ => _ end) as [s1 p1 sp1 d1|s1 p1 sp1 d1|s1|]; try discriminate.
+  - apply IH; exact HC.
+  - destruct (p1 <? length data); [apply IH; exact HC|]. intros H; injection H as <-; exact HC.
+  - intros H; injection H as <-; exact HC.
+Qed.
+
+Lemma parse_r_inv' s data s' : mp_inv' s -> mp_parse_r s data = MpOk s' -> mp_inv' s'.
+Proof.
+  intros (Hi & Hni) E. destruct (parse_r_ok s data Hi Hni) as (s2 & E2 & Hi2).
+  rewrite E in E2. injection E2 as <-. split; [exact Hi2|].
+  unfold mp_parse_r in E. destruct (0 <? length data); [|injection E as <-; exact Hni].
+  eapply switch_state; eauto.
+Qed.
+
+Lemma parse_inv' s data : mp_inv' s -> mp_inv' (mp_parse s data).
+Proof.
+  intros Hi. unfold mp_parse.
+  destruct Hi as (Hi & Hni). pose proof Hi as (Hf & _). rewrite Hf.
+  destruct (parse_r_ok s data Hi Hni) as (s2 & E2 & Hi2). rewrite E2.
+  apply (parse_r_inv' s data s2); [split; assumption|exact E2].
+Qed.
+
+Lemma init_inv' b f : mp_inv' (mp_init_flags b f).
+Proof.
+  unfold mp_inv', mp_inv, mp_cand_ok, mp_init_flags. cbn.
+  repeat split; try reflexivity; try lia; try discriminate; intros; try reflexivity; lia.
+Qed.
+
+Lemma fold_parse_inv' chunks : forall s, mp_inv' s -> mp_inv' (fold_left mp_parse chunks s).
+Proof. induction chunks as [|c r IH]; intros s H; cbn [fold_left]; [exact H|]. apply IH. apply parse_inv'. exact H. Qed.
+
+(* C14 (a) *)
+Theorem mp_never_faults : forall boundary flags chunks,
+  let st := fold_left mp_parse chunks (mp_init_flags boundary flags) in
+  mps_fault st = false /\
+  (forall data, exists st', mp_parse_r st data = MpOk st') /\
+  (exists st', mp_finalize_r st = MpOk st') /\
+  mps_fault (mp_finalize st) = false.
+Proof.
+  intros b f chunks st.
+  pose proof (fold_parse_inv' chunks _ (init_inv' b f)) as (Hi & Hni). fold st in Hi, Hni.
+  pose proof Hi as (Hf & _).
+  split; [exact Hf|]. split; [|split].
+  - intros data. destruct (parse_r_ok st data Hi Hni) as (s' & E & _). eauto.
+  - destruct (finalize_r_ok st Hi) as (s' & E & _). eauto.
+  - unfold mp_finalize. rewrite Hf. destruct (finalize_r_ok st Hi) as (s' & E & Hf'). rewrite E. exact Hf'.
+Qed.
